@@ -11,7 +11,16 @@
 let toks = ref []
 let next () = match !toks with x :: t -> toks := t; x | [] -> failwith "truncated case"
 let next_int () = int_of_string (next ())
-let next_id () = bytes_of_hex (next ())
+(* long ids are written <hex prefix>*<length>: the prefix padded with 'z' to the length (c05_strategy.go) *)
+let id_of_token tok =
+  match String.index_opt tok '*' with
+  | None -> bytes_of_hex tok
+  | Some i ->
+    let pre = bytes_of_hex (String.sub tok 0 i) in
+    let n = int_of_string (String.sub tok (i + 1) (String.length tok - i - 1)) in
+    let z = List.hd (bytes_of_hex "7a") in
+    pre @ List.init (n - List.length pre) (fun _ -> z)
+let next_id () = id_of_token (next ())
 let next_ids () = let n = next_int () in List.init n (fun _ -> next_id ())
 let next_side () = (next () = "A")
 
@@ -150,6 +159,20 @@ let next_xop () =
     XDeleteWhere (sd, nat_of_int w, all, next_ids ())
   | _ -> XOp (next_hop ())
 
+(* CS | US <lv> sd x <pair> <n> <id>..  create / update through the store of level lv of an entity whose strategy
+   persists the link field of <pair> with SetLinkedIds (Links/HierStrategy.v) *)
+let next_sop () =
+  match !toks with
+  | ("CS" | "US") as kind :: _ ->
+    let _ = next () in
+    let w = next_int () in
+    let sd = next_side () in
+    let x = next_id () in
+    let p = next_int () in
+    let ids = next_ids () in
+    if kind = "CS" then SCreate (sd, nat_of_int w, x, nat_of_int p, ids) else SUpdate (sd, nat_of_int w, x, nat_of_int p, ids)
+  | _ -> SOp (next_xop ())
+
 let run_hier kinded =
   let flags () = let n = next_int () in List.init n (fun _ -> next () = "1") in
   let ka = flags () in
@@ -170,9 +193,9 @@ let run_hier kinded =
   let blocks = ref [] in
   for _ = 1 to ntx do
     let nops = next_int () in
-    let ops = List.init nops (fun _ -> next_xop ()) in
-    let v = match xfirst_failure t u ops !h O with None -> "ok" | Some i -> "f" ^ string_of_int (int_of_nat i) in
-    let (_, h') = run_xtx t u ops !h in
+    let ops = List.init nops (fun _ -> next_sop ()) in
+    let v = match sfirst_failure t u ops !h O with None -> "ok" | Some i -> "f" ^ string_of_int (int_of_nat i) in
+    let (_, h') = run_stx t u ops !h in
     h := h';
     blocks := (v ^ " " ^ hdump t u !h) :: !blocks
   done;
@@ -186,7 +209,7 @@ let () =
     | _ ->
       (try
         match next () with
-        | "H" -> print_endline (run_history ())
+        | "H" | "Z" -> print_endline (run_history ())
         | "S" -> print_endline (run_set_links ())
         | "T" -> print_endline (run_hier false)
         | "K" -> print_endline (run_hier true)
